@@ -600,6 +600,32 @@ def make_error(kind, code):
     return cls('injected')
 
 
+class CustomRepo(MOFC.BaseRepositoryConnection):
+    """A user-written CIM repository connection (the documented extension point) WITHOUT a WBEM
+    connection behind it: every operation is delegated to a StubRepo, there is no `conn`."""
+
+    def __init__(self, stub):
+        self._stub = stub
+        super().__init__()
+
+    @property
+    def default_namespace(self):
+        return self._stub.default_namespace
+
+    @default_namespace.setter
+    def default_namespace(self, ns):
+        self._stub.default_namespace = ns
+
+
+for _op in ('EnumerateInstanceNames', 'CreateInstance', 'ModifyInstance', 'DeleteInstance', 'GetClass',
+            'ModifyClass', 'CreateClass', 'DeleteClass', 'EnumerateQualifiers', 'GetQualifier',
+            'SetQualifier', 'DeleteQualifier'):
+    def _deleg(self, *a, _op=_op, **k):
+        return getattr(self._stub, _op)(*a, **k)
+    setattr(CustomRepo, _op, _deleg)
+CustomRepo.__abstractmethods__ = frozenset()
+
+
 # ------------------------------------------------------------------------------------------
 # per-process state
 
@@ -659,7 +685,7 @@ def worker():
     w.mock0 = {}
     _W = w
     w.expected = {}
-    for seam in ('mofwbem', 'direct'):
+    for seam in ('mofwbem', 'direct', 'custom'):
         stub, handle, comp = new_compiler(seam, None, False, False, w)
         comp.compile_string(REFERENCE_UNIT, None)
         w.expected[seam] = reference_dump(seam, stub, handle)
@@ -671,7 +697,7 @@ def worker():
 def new_compiler(seam, faults, search, ext=False, w=None):
     w = w or worker()
     stub = StubRepo(w.pristine, faults or (), ext)
-    handle = MOFWBEMConnection(stub) if seam == 'mofwbem' else stub
+    handle = MOFWBEMConnection(stub) if seam == 'mofwbem' else CustomRepo(stub) if seam == 'custom' else stub
     comp = MOFCompiler(handle, search_paths=[os.path.join(w.root, 'sp')] if search else None,
                        log_func=None)
     return stub, handle, comp
@@ -1463,7 +1489,7 @@ def base_calls(name, seam):
 
 def gen_faults(tier):
     for name in TEMPLATES:
-        for seam in ('mofwbem', 'direct'):
+        for seam in ('mofwbem', 'direct', 'custom'):
             n = base_calls(name, seam)
             for k in range(n):
                 for code in STATUS_CODES:
